@@ -316,7 +316,7 @@ def run_case(case):
         from holopy.core.metadata import flat
         data = flat(data)
         npx = int(0.6 * N * N)
-    mk_strat = (lambda: NmpfitStrategy(npixels=npx, seed=1234 if npx else None)) if case["strategy"] == "nmpfit" else (lambda: LeastSquaresScipyStrategy(npixels=npx))
+    mk_strat = (lambda: NmpfitStrategy(npixels=npx, seed=([1234, 0, np.int64(0), 7][int(case["seed"][-1]) % 4 if isinstance(case["seed"][-1], int) else 0]) if npx else None)) if case["strategy"] == "nmpfit" else (lambda: LeastSquaresScipyStrategy(npixels=npx))
     strat = mk_strat()
     d_model, d_data, d_strat = digest(model), digest(data), digest(strat._dict)
     flags, resid = {}, {}
@@ -361,8 +361,10 @@ def run_case(case):
         flags["hologram_on_detector_coordinates"] = bool(np.allclose(holo.x.values, data_full.x.values, rtol=0, atol=1e-12) and np.allclose(holo.y.values, data_full.y.values, rtol=0, atol=1e-12))
     lp = model.lnposterior(got, res.data)
     resid["max_lnprob"] = fnum(abs(res.max_lnprob - lp) / max(1.0, abs(lp)))
-    # second fit with the very same objects
-    np.random.seed(99)
+    # second fit with the very same objects (a strategy that was given a seed is repeatable by itself: the global stream is put back
+    # only for the scipy strategy, which has no seed of its own)
+    if case["strategy"] != "nmpfit":
+        np.random.seed(99)
     res2 = hp.fit(data, model, strategy=strat)
     flags["second_fit_identical"] = bool(all(res2.parameters[k] == got[k] for k in keys))
     if not flags["second_fit_identical"]:
